@@ -94,6 +94,8 @@ FIRE = [
     ('C16', 'notation', "                action = f'p{operation.player_index + 1} cc'", "                action = f'p{operation.player_index + 1} c'", 'C16.verbs'),
     ('C16', 'notation', "        case player, 'f':", "        case player, 'fold':", 'C16.verbs'),
     ('C16', 'notation', "            if '\\'' not in value and not controls & set(value):", "            if not controls & set(value):", 'C16.toml_writer'),
+    # seed C16_1 ported to the repaired writer: the basic-string arm no longer escapes backslash / double quote
+    ('C16', 'notation', "                if c == '\\\\' or c == '\"':\n                    escaped_value += f'\\\\{c}'\n                elif c in controls:", "                if c in controls:", 'C16.toml_writer'),
     # ---- C17
     ('C17', 'notation', "                    amount = -state.payoffs[operation.player_index]\n                    actions += f'r{amount}'", "                    amount = operation.amount\n                    actions += f'r{amount}'", 'C17.cumulative'),
     ('C17', 'notation', "                    max_amount = amount\n                    amount -= previous_max_amount", "                    amount -= previous_max_amount\n                    max_amount = amount", 'C17.cumulative'),
